@@ -12,6 +12,7 @@ import PeroVerif.Drv.C06
 import PeroVerif.Drv.C07
 import PeroVerif.Drv.C08
 import PeroVerif.Drv.C09
+import PeroVerif.Drv.C10
 import PeroVerif.Drv.C11
 import PeroVerif.Drv.C12
 import PeroVerif.Drv.C13
@@ -33,6 +34,7 @@ def dispatch (p : String) : Option Handler :=
   | "C07" => some Drv.C07.handle
   | "C08" => some Drv.C08.handle
   | "C09" => some Drv.C09.handle
+  | "C10" => some Drv.C10.handle
   | "C11" => some Drv.C11.handle
   | "C12" => some Drv.C12.handle
   | "C13" => some Drv.C13.handle
